@@ -92,7 +92,8 @@ class Problem:
             if case.get("weights"):
                 w = ex.real(f"wk{i}")
                 ex.assume(tobool(w > 0))
-            v = O.Vary(f"k{i}", d, limits=None, step=1e-3, max_step=ms, weight=w, tag=f"vt{i}")
+            v = O.Vary(f"k{i}", d, limits=None, step=1e-3, max_step=ms, weight=w, tag=f"vt{i}",
+                       active=(i not in case.get("init_inactive_vary", [])))
             v.limits = np.array(self.lims[i], dtype=object)
             vary.append(v)
         self.vary = vary
